@@ -6,3 +6,4 @@ from . import text  # noqa: F401
 from . import attrs  # noqa: F401
 from . import children  # noqa: F401
 from . import helpers  # noqa: F401
+from . import tagify  # noqa: F401
